@@ -228,6 +228,9 @@ func runC07(c *Ctx) {
 	}
 }
 
+var c07YamlValueRe = regexp.MustCompile(`^(\s*(?:[\w-]+:|-)) \S.*$`)
+var c07YamlEntryRe = regexp.MustCompile(`^  \w+:$`)
+
 // c07Yaml builds a genqlient.yaml (string) with a perturbed casing/optional/bindings section.
 func c07Yaml(r *proto.Rng, p *gen.Program, cs *c07Case) (string, string, map[string]any) {
 	// an enum used by the operations, if any
@@ -265,7 +268,44 @@ func c07Yaml(r *proto.Rng, p *gen.Program, cs *c07Case) (string, string, map[str
 	y.WriteString("generated: generated.go\npackage: gen\n")
 	base := cs.Cfg
 	base.CasingDefault, base.CasingAllEnums, base.CasingEnums = "", "", nil
-	y.WriteString(c17YamlCfg(base))
+	cfgText := c17YamlCfg(base)
+	switch r.Intn(6) {
+	case 0:
+		// one scalar value becomes a YAML null (`key:`), one list item an empty one (`- `)
+		lines := strings.Split(cfgText, "\n")
+		var idx []int
+		for i, l := range lines {
+			if c07YamlValueRe.MatchString(l) {
+				idx = append(idx, i)
+			}
+		}
+		if len(idx) > 0 {
+			i := idx[r.Intn(len(idx))]
+			lines[i] = c07YamlValueRe.ReplaceAllString(lines[i], "$1")
+			cfgText, kind = strings.Join(lines, "\n"), "null-value"
+		}
+	case 1:
+		// a whole bindings entry becomes null: `  Date:` with nothing under it
+		lines := strings.Split(cfgText, "\n")
+		var out []string
+		done := false
+		for i := 0; i < len(lines); i++ {
+			out = append(out, lines[i])
+			if !done && c07YamlEntryRe.MatchString(lines[i]) && i+1 < len(lines) && strings.HasPrefix(lines[i+1], "    ") {
+				for i+1 < len(lines) && strings.HasPrefix(lines[i+1], "    ") {
+					i++
+				}
+				done = true
+			}
+		}
+		if done {
+			cfgText, kind = strings.Join(out, "\n"), "null-binding-entry"
+		}
+	case 2:
+		cfgText += "package_bindings:\n- \n"
+		kind = "null-package-binding-entry"
+	}
+	y.WriteString(cfgText)
 	y.WriteString("casing:\n")
 	wr := func(k, v string, indent string) {
 		switch v {
